@@ -120,6 +120,7 @@ def eff_escape(case):
 
 
 def known_trigger(case):
+    return None  # the escape="_" double-escaping defect was repaired in /repo (fix: 180c3b1): nothing is excluded any more
     if case["mode"] == "auto_esc" and case.get("esc") == "_" and "%" in case["needle"]:
         return "autoescape-underscore-escape-double-escaped"
     return None
